@@ -327,7 +327,7 @@ func (w *world) Run(t *rt.Tape, trace bool) *core.Result {
 	sides := []*side{a, b}
 	firstSide, secondSide := sides[first], sides[1-first]
 
-	rr := rt.Run(rt.Config{Trace: trace}, t, func() {
+	rr := rt.Run(rt.Config{Trace: trace, NoProgress: core.NoProgressDefault}, t, func() {
 		a.conn = p2p.NewConn(ea)
 		b.conn = p2p.NewConn(eb)
 		for _, s := range sides {
@@ -391,8 +391,8 @@ func (w *world) Run(t *rt.Tape, trace bool) *core.Result {
 			return fail("receive-mismatch", s.recvErr)
 		}
 	}
-	if rr.Outcome == rt.Deadlock {
-		return fail("did-not-terminate", fmt.Sprintf("deadlock; blocked tasks: %v", rr.Blocked))
+	if core.Stuck(rr) {
+		return fail("did-not-terminate", fmt.Sprintf("%v; unfinished tasks: %v", rr.Outcome, rr.Blocked))
 	}
 	if secondSide.eofErr != "" {
 		return fail("close-delivery", secondSide.name+": "+secondSide.eofErr)
